@@ -9,6 +9,13 @@ import PdfModel.Lemmas.TotalOpen
 import PdfModel.Lemmas.TotalGlue
 import PdfModel.Lemmas.DeriveRegistryTotal
 import PdfModel.Lemmas.ReadLinear
+import PdfModel.Lemmas.TotalTyped
+import PdfModel.Lemmas.TotalDate
+import PdfModel.Lemmas.TotalColorSpace
+import PdfModel.Lemmas.TotalFont
+import PdfModel.Lemmas.TotalHandTower
+import PdfModel.Lemmas.TotalCrypt
+import PdfModel.Lemmas.TotalContentTyped
 import PdfModel.Generated.Schemas
 import PdfModel.Props.C02
 import PdfModel.Props.C05
@@ -514,22 +521,252 @@ theorem typed_registry_total (cfg : Derive.Cfg) (hreg : Derive.RegistryOk Genera
     (Derive.schemaOk_of cfg _ hand n env (fun s q hq => Derive.semH_clean cfg _ hreg hand hhand n env he s q hq) S
       (hreg.dflt S hS)) p hp
 
-/-- **Typed load of any object as any derived model terminates without panic.** Two theorems about the same code,
-    side by side: the *control* of nested loads (`StorageResolver::get`: recursion guard, 64 nested gets; `Model/TypedLoad`,
-    C14) returns on every object graph — cyclic, self-referential, dangling — with fuel `objects + 1` and never nests
-    deeper than 64; the *values* (`Model/Derive` over the generated schemas) are read without partiality at every
-    nesting budget, where a used-up budget is the guard's `Err`. What links them is not proved: that the budget `n` of
-    the value model is the guard of the control model (64 gets × at most `MAX_DEPTH` = 20 directly nested dictionaries per
-    object, `parse_nesting_bounded`). -/
+/-- The registry has the four derived models `Font::from_primitive` dispatches to (`FontType`, `Type0Font`, `TFont`,
+    `CIDFont`). -/
+theorem generated_font_schemas : (Derive.fontSchemas Generated.generatedSchemas).isSome = true := by decide +kernel
+
+/-- **Typed load of any object terminates without panic: derived schema OR one of the modelled hand-written readers.**
+    Two theorems about the same code, side by side.
+
+    *Values.* `Derive.semM` (`Model/HandTower`) is the typed layer with everything that has a model on primitives plugged
+    in: the derived struct / enum readers over the generated schemas, `PagesNode` / `PagesRc` / `PageRc`, and the
+    hand-written `Date`, `Dest`, `Action`, `NumberTree<T>`, `NameTree<T>`, `ColorSpace` and `Font` (`typed_load_uses_models`
+    says which model reads which shape). At EVERY nesting budget `n`, for every shape, every plain primitive, strict and
+    tolerant, it returns a value or an error — never `oof`; a used-up budget is the guard's `Err`. What is left as a
+    parameter (`other`) are the hand-written readers of *stream objects* (`Stream<T>`, `XObject`, `Pattern`,
+    `CidToGidMap`, `AppearanceStreamEntry`, `Content`): `Derive.Prim` leaves streams out; their models are on
+    `Derive.TPrim` / `APrim` and are total there (`stream_readers_total`, `content_typed_total`).
+
+    *Control.* The nested loads (`StorageResolver::get`: recursion guard, 64 nested gets; `Model/TypedLoad`, C14) return
+    on every object graph — cyclic, self-referential, dangling — with fuel `objects + 1`.
+
+    What links the two is not proved: that the budget `n` of the value model is the guard of the control model (64 gets
+    × at most `MAX_DEPTH` = 20 directly nested dictionaries per object, `parse_nesting_bounded`). -/
 theorem typed_load_total (cfg : Derive.Cfg) (hreg : Derive.RegistryOk Generated.generatedSchemas)
-    (hand : Derive.Env → Derive.Shape → Derive.Prim → Derive.R Derive.Val)
-    (hhand : ∀ env, Derive.EnvOk env → ∀ s p, p.plain = true → Derive.Clean (hand env s p)) :
+    (other : Derive.Env → Derive.Shape → Derive.Prim → Derive.R Derive.Val)
+    (hother : ∀ env, Derive.EnvOk env → ∀ s p, p.plain = true → Derive.Clean (other env s p)) :
     (∀ (n : Nat) (env : Derive.Env), Derive.EnvOk env → ∀ (s : Derive.Shape) (p : Derive.Prim), p.plain = true →
-        Derive.Clean ((Derive.semH cfg Generated.generatedSchemas hand n).rd env s p)) ∧
+        Derive.Clean ((Derive.semM cfg Generated.generatedSchemas other n).rd env s p)) ∧
     (∀ (g : TypedLoad.Graph) (tolerant : Bool) (k : Nat),
         TypedLoad.load g tolerant (g.length + 1) [] k ≠ .oof ∧ TypedLoad.load g tolerant (g.length + 1) [] k ≠ .panic) :=
-  ⟨Derive.semH_clean cfg _ hreg hand hhand,
+  ⟨Derive.semM_clean cfg _ hreg generated_font_schemas other hother,
    fun g tolerant k => ⟨C14.guarded_load_terminates g tolerant k, C14.guarded_load_never_panics g tolerant _ _ _⟩⟩
+
+/-- which model reads which hand-written shape of the generated schemas (above the bottom level of the tower) -/
+theorem typed_load_uses_models (cfg : Derive.Cfg) (other : Derive.Env → Derive.Shape → Derive.Prim → Derive.R Derive.Val)
+    (n : Nat) (env : Derive.Env) (p : Derive.Prim) :
+    let G := Generated.generatedSchemas
+    let below := Derive.semM cfg G other n
+    let rd := (Derive.semM cfg G other (n + 1)).rd env
+    rd (.leaf "Date") p = Derive.readDateP env p ∧
+    rd (.leaf "Dest") p = (Derive.readDest env p).map Derive.destVal ∧
+    rd (.leaf "Action") p = Derive.readAction (Derive.readDestP env) env p ∧
+    rd (.leaf "ColorSpace") p = (CSLoad.csLoad { env := env, streams := fun _ => none } p).map Derive.csVal ∧
+    (∀ S, Derive.fontSchemas G = some S →
+      rd (.leaf "Font") p = (FontLoad.readFont cfg below S env p).map Derive.fontVal) ∧
+    (∀ t, rd (.leafApp "NumberTree" t) p
+      = (Derive.readNumTree (Derive.readShape cfg below env t) env p).map Derive.numTreeVal) ∧
+    (∀ t, rd (.leafApp "NameTree" t) p
+      = (Derive.readNameTree (Derive.readShape cfg below env t) env p).map Derive.nameTreeVal) ∧
+    rd (.leafApp "Stream" (.leaf "()")) p = other env (.leafApp "Stream" (.leaf "()")) p := by
+  intro G below rd
+  have hD : Derive.isHand G (.leaf "Date") = true := by decide +kernel
+  have hDe : Derive.isHand G (.leaf "Dest") = true := by decide +kernel
+  have hA : Derive.isHand G (.leaf "Action") = true := by decide +kernel
+  have hC : Derive.isHand G (.leaf "ColorSpace") = true := by decide +kernel
+  have hF : Derive.isHand G (.leaf "Font") = true := by decide +kernel
+  refine ⟨?_, ?_, ?_, ?_, ?_, ?_, ?_, ?_⟩
+  · simp [rd, G, Derive.semM, hD, Derive.isModelledHand, Derive.handM]
+  · simp [rd, G, Derive.semM, hDe, Derive.isModelledHand, Derive.handM, Derive.readDestP]
+  · simp [rd, G, Derive.semM, hA, Derive.isModelledHand, Derive.handM]
+  · simp [rd, G, Derive.semM, hC, Derive.isModelledHand, Derive.handM, Derive.readColorSpaceP, CSLoad.csLoad]
+  · intro S hS
+    have hS' : Derive.fontSchemas Generated.generatedSchemas = some S := hS
+    simp [rd, below, G, Derive.semM, hF, Derive.isModelledHand, Derive.handM, hS']
+  · intro t; simp [rd, below, G, Derive.semM, Derive.isHand, Derive.isModelledHand, Derive.handM]
+  · intro t; simp [rd, below, G, Derive.semM, Derive.isHand, Derive.isModelledHand, Derive.handM]
+  · simp [rd, G, Derive.semM, Derive.isHand, Derive.isModelledHand]
+
+-- ===================================================================================================
+-- 7b. the typed layer: hand-written readers, each on ARBITRARY input
+
+/-- **`Date::from_primitive`** (byte-level model `DateRead.readDate`, this package): on EVERY byte string a date or
+    `Err`. The three slicing expressions `&s[p..p+1]`, `&s[..p]`, `&s[p+1..]` would panic off a character boundary; `p` is
+    the position of an ASCII sign in a string that passed `str::from_utf8`, and both sides of an ASCII byte of a
+    well-formed string are boundaries (`DateRead.boundary_around_ascii`). The `unreachable!()` is unreachable; the fields
+    fit their types (`u16`, `u8`). -/
+theorem date_total (data : List UInt8) :
+    (DateRead.readDate data).Returns ∧
+    ∀ d, DateRead.readDate data = .ok d →
+      d.year ≤ 65535 ∧ d.month ≤ 255 ∧ d.day ≤ 255 ∧ d.hour ≤ 255 ∧ d.minute ≤ 255 ∧ d.second ≤ 255 ∧
+      d.rel ≤ 2 ∧ d.tzHour ≤ 255 ∧ d.tzMinute ≤ 255 := by
+  exact ⟨DateRead.readDate_total data, fun d h => DateRead.readDate_bounds data d h⟩
+
+/-- **`Dest`, `MaybeNamedDest`, `Action`** (`Model/Handwritten*.lean`, C15): every primitive, every resolver that answers
+    with a value or an error. No indexing beyond `array.get(i)`, no arithmetic: values or errors. -/
+theorem dest_action_total (env : Derive.Env) (hc : ∀ id, Derive.Clean (env.resolve id)) (p : Derive.Prim) :
+    Derive.Clean (Derive.readDest env p) ∧
+    Derive.Clean (Derive.readNamedDestV env p) ∧
+    (∀ xs, Derive.Clean (Derive.readDestArr env.tolerant xs)) ∧
+    (∀ rdDest : Derive.Prim → Derive.R Derive.Val, (∀ q, Derive.Clean (rdDest q)) →
+      Derive.Clean (Derive.readNamedDest rdDest env p) ∧ Derive.Clean (Derive.readAction rdDest env p)) :=
+  ⟨Derive.readDest_clean hc p, Derive.readNamedDestV_clean hc p, fun xs => Derive.readDestArr_clean _ xs,
+   fun rdDest hd => ⟨Derive.readNamedDest_clean hc rdDest hd p, Derive.readAction_clean hc rdDest hd p⟩⟩
+
+/-- **`NumberTree<T>` / `NameTree<T>::from_primitive`** (one node; C15's model): every primitive, given a reader of `T`
+    that answers. The walk over the kids is `tree_walks_bounded`. -/
+theorem tree_node_total (env : Derive.Env) (he : Derive.EnvOk env) (rdT : Derive.Prim → Derive.R Derive.Val)
+    (h : ∀ v, v.plain = true → Derive.Clean (rdT v)) (p : Derive.Prim) (hp : p.plain = true) :
+    Derive.Clean (Derive.readNumTree rdT env p) ∧ Derive.Clean (Derive.readNameTree rdT env p) :=
+  ⟨Derive.readNumTree_clean_plain he rdT h p hp, Derive.readNameTree_clean_plain he rdT h p hp⟩
+
+/-- **Name / number tree walks and the page lookup** (`Model/TypedLoad`, C14): total on every graph — cyclic, shared,
+    dangling — and bounded: no node entered twice, at most `B` gets for kid numbers below `B`. -/
+theorem tree_walks_bounded :
+    (∀ (g : List TypedLoad.TNode) (root : TypedLoad.TNode),
+      (TypedLoad.walkTree g root).out ≠ .panic ∧ (TypedLoad.walkTree g root).out ≠ .oof) ∧
+    (∀ (g : List TypedLoad.PNode) (kids : List Nat) (n : Nat),
+      (TypedLoad.page g true kids n).out ≠ .panic ∧ (TypedLoad.page g true kids n).out ≠ .oof) :=
+  ⟨fun g root => C14.walk_total g root, fun g kids n => C14.page_total g kids n⟩
+
+/-- **The readers of stream objects** (`CidToGidMap`, `Pattern`, `XObject` dispatch, `AppearanceStreamEntry`; C15's
+    models on `TPrim` / `APrim`): every input. `unfiltered`: a stream handed to `unitStreamData` has a direct `/Length`
+    and no filter — with filters `Stream::data` runs the decoders, `stream_decoders_total`. `AppearanceStreamEntry`:
+    for EVERY nesting budget — a used-up budget is the error "nested too deeply". -/
+theorem stream_readers_total :
+    (∀ t : Derive.TPrim, t.unfiltered → Derive.Clean (Derive.readCidMap t)) ∧
+    (∀ (rdDict : Derive.Dict → Derive.R Derive.Val) (parseOps : List UInt8 → Derive.R (List UInt8)),
+      (∀ d, Derive.Clean (rdDict d)) → (∀ b, Derive.Clean (parseOps b)) →
+      ∀ t : Derive.TPrim, t.unfiltered → Derive.Clean (Derive.readPattern rdDict parseOps t)) ∧
+    (∀ (variants : List Derive.Variant) (rdInner : String → Derive.Dict → List UInt8 → Derive.R Derive.Val),
+      (∀ s d b, Derive.Clean (rdInner s d b)) → ∀ t, Derive.Clean (Derive.readXObject variants rdInner t)) ∧
+    (∀ (rdForm : Derive.Dict → List UInt8 → Derive.R Derive.Val), (∀ d b, Derive.Clean (rdForm d b)) →
+      ∀ (n : Nat) (a : Derive.APrim), Derive.Clean (Derive.readASE rdForm n a)) :=
+  ⟨fun t h => Derive.readCidMap_clean t h,
+   fun rdDict parseOps hd hp t h => Derive.readPattern_clean rdDict parseOps hd hp t h,
+   fun variants rdInner hi t => Derive.readXObject_clean variants rdInner hi t,
+   fun rdForm hf n a => Derive.readASE_clean rdForm hf n a⟩
+
+/-- the nesting budget of appearance entries and colour spaces over abstract object graphs (C14) -/
+theorem nesting_budgets_total :
+    (∀ (g : List TypedLoad.CObj) (k : Nat), TypedLoad.csLoad g 5 k ≠ .panic ∧ TypedLoad.csLoad g 5 k ≠ .oof) ∧
+    (∀ (g : List TypedLoad.AObj) (k : Nat), TypedLoad.apLoad g 2 k ≠ .panic ∧ TypedLoad.apLoad g 2 k ≠ .oof) :=
+  ⟨fun g k => C14.colorspace_total g k, fun g k => C14.appearance_total g k⟩
+
+/-- **`Encoding::from_primitive`** (C15 / C19 models): every primitive. The `/Differences` loop is total — `gid + 1` is a
+    checked addition, a code of −1 is an error, not an overflow (`Numeric.differences`, C14, is the same loop over
+    numbers) — and one unit of fuel for the reference is enough. -/
+theorem encoding_total (env : Derive.Env) (he : Derive.EnvOk env) (n : Nat) (p : Derive.Prim) :
+    Derive.Clean (Derive.readEncoding env (n + 1) p) ∧
+    (∀ (gid : Nat) (xs : List (FontEncoding.DP String)) (m : FontEncoding.DMap String),
+      (FontEncoding.readDiffs gid xs m).Returns) ∧
+    (∀ (parts : List Numeric.DPart) (gid : Nat) (m : List (Nat × Nat)),
+      Numeric.differences true parts gid m ≠ .panic ∧ Numeric.differences true parts gid m ≠ .oof) :=
+  ⟨Derive.readEncoding_clean he n p, fun gid xs m => Derive.readDiffs_returns gid xs m,
+   fun parts gid m => C14.differences_total parts gid m⟩
+
+/-- **`ColorSpace::from_primitive_depth`** (`Model/ColorSpaceLoad`, this package): EVERY budget, every plain primitive,
+    every object table with plain objects and streams. All families; `get_index` never indexes (`Err(Bounds)`), `hival`
+    is a `u8` by test, `depth - 1` is behind `depth == 0`. The value nests base / alternate spaces at most `depth` deep.
+    The three loaders it hands over to (tint `Function`, `RcRef<Stream<IccInfo>>`, `Vec<Name>`) are recorded, not run:
+    `cs.subs`. -/
+theorem colorspace_load_total (se : CSLoad.SEnv) (he : Derive.EnvOk se.env) (depth : Nat) (p : Derive.Prim)
+    (hp : p.plain = true) :
+    Derive.Clean (CSLoad.csRead se depth p) ∧
+    (∀ cs, CSLoad.csRead se depth p = .ok cs → cs.nesting ≤ depth) ∧
+    (∀ h n, CSLoad.asU8 h = .ok n → n < 256) :=
+  ⟨CSLoad.csRead_clean he depth p hp, fun cs h => CSLoad.csRead_nesting se depth p cs h,
+   fun h n hn => CSLoad.asU8_range h n hn⟩
+
+/-- **`Font::from_primitive`** (`Model/FontLoad`, this package): the dispatch on `/Subtype`, the `/BaseFont` rule,
+    `/Encoding`, the cut of `/DescendantFonts` to one element answer on every plain primitive (`fontPlan`), and what the
+    plan hands on is plain; run through the derived readers of `Type0Font` / `TFont` / `CIDFont` and the reader of
+    `/ToUnicode` (`readFont`) it answers whenever the leaf readers one level down do (`SemOk`; in the tower:
+    `typed_load_total`). -/
+theorem font_load_total (cfg : Derive.Cfg) (sem : Derive.Sem) (S : FontLoad.Schemas) (env : Derive.Env)
+    (he : Derive.EnvOk env) (p : Derive.Prim) (hp : p.plain = true) :
+    Derive.Clean (FontLoad.fontPlan env S.fontType p) ∧
+    (FontLoad.SemOk sem S env → Derive.Clean (FontLoad.readFont cfg sem S env p)) :=
+  ⟨(FontLoad.fontPlan_spec he S.fontType p hp).1, fun hs => FontLoad.readFont_clean cfg sem S he hs p hp⟩
+
+-- ===================================================================================================
+-- 7c. what the accessors of a loaded object run on attacker-controlled data (models of C05, C06, C08, C14, C19)
+
+/-- **`Font::widths`** (`Model/Widths`, C19): the `/W` interpreter and the per-subtype dispatch answer on EVERY array —
+    runs past `MAX_CID`, descending ranges, non-numbers, a composite font over a composite font. -/
+theorem font_widths_total {α : Type} (zero : α) :
+    (∀ (w : Widths.Widths α) (items : List (Widths.WP α)), (Widths.interp w items).Returns) ∧
+    (∀ f : Widths.FontM α, (Widths.widthsOf zero f).Returns) := by
+  refine ⟨fun w items => C19.interp_total w items, fun f => ?_⟩
+  fun_induction Widths.widthsOf zero f with
+  | case1 => simp [Out.Returns]
+  | case2 d ds ih => exact ih
+  | case3 => simp [Out.Returns]
+  | case4 => simp [Out.Returns]
+  | case5 dw w t h => simp [Out.Returns]
+  | case6 dw w h => simp [Out.Returns]
+  | case7 dw w h => exact absurd h (C19.interp_total (Widths.Widths.new dw) w).1
+  | case8 dw w h => exact absurd h (C19.interp_total (Widths.Widths.new dw) w).2
+  | case9 => simp [Out.Returns]
+
+/-- **`Font::to_unicode` → `parse_cmap`** (`Model/CMap`, C19): the reader model answers on every byte string — a map,
+    `Err`, or "outside the modelled fragment" — and the fuel `len + 1` is never the reason (the model has no panic
+    outcome: no indexing, `checked` code arithmetic). -/
+theorem cmap_total (bs : CMap.Bytes) : CMap.parseCMap bs ≠ .oof := C19.parse_cmap_total bs
+
+/-- **`Stream::data` → the filters** (`Model/Enc`, `Model/Lzw`, C05): every decoder and every chain on every byte
+    string, every parameter set, whatever the third-party decompressors return; LZW with both `EarlyChange` settings;
+    undoing a predictor for every `/Predictor /Colors /BitsPerComponent /Columns`; the fax geometry. -/
+theorem stream_decoders_total :
+    (∀ (X : Enc.Ext) (fs : List Enc.Filter) (data : Enc.Bytes), (Enc.decodeChain X data fs).Returns) ∧
+    (∀ (X : Enc.Ext) (data : Enc.Bytes) (f : Enc.Filter), (Enc.decode X data f).Returns) ∧
+    (∀ (early : Bool) (data : Enc.Bytes), (Lzw.decode early data).Returns) ∧
+    (∀ (decoded : Enc.Bytes) (p : Enc.Params), Enc.unpredict decoded p ≠ .panic ∧ Enc.unpredict decoded p ≠ .oof) ∧
+    (∀ c r, Numeric.faxDims true c r ≠ .panic ∧ Numeric.faxDims true c r ≠ .oof) ∧
+    (∀ columns rows dataLen c r, Numeric.faxDimsData columns rows dataLen = .ok (c, r) → c ≤ 65535 ∧ r ≤ 8 * dataLen) :=
+  ⟨fun X fs data => Enc.decodeChain_never_panics X fs data, fun X data f => Enc.decode_never_panics X data f,
+   fun early data => Enc.lzw_decode_never_panics early data, fun d p => C14.unpredict_total d p,
+   fun c r => C14.fax_dims_total c r, fun columns rows dataLen c r h => C14.fax_output_bounded columns rows dataLen c r h⟩
+
+/-- **Decryption** (`Model/Crypt`, C06; key lengths: `Model/Numeric`, C14): `Decoder::decrypt` on ARBITRARY ciphertext,
+    object number and generation returns a plaintext or `DecryptionFailure` — given hash / block primitives that are
+    functions with the digest lengths of MD5 and AES, a cipher method (`Decoder::new` builds no other) and a key of at
+    least `min(key_size, 16)` bytes, which is what `from_password` hands over for EVERY `/Length`, `/R` and crypt filter
+    (`keySchedule`, `objectKeySlices`, `cfKeyBits`). -/
+theorem decrypt_total {P : Crypt.Prims} {H : StdSec.Hashes} (hp : StdSec.PrimsAgree P H) (hw : H.WF) :
+    (∀ (d : Crypt.Decoder), d.method ≠ .none → min d.keySize 16 ≤ d.key.length →
+      ∀ (id gen : Nat) (data : Crypt.Bytes), (Crypt.decrypt P d id gen data).Returns) ∧
+    (∀ revision keyBits userOk,
+      Numeric.keySchedule true revision keyBits userOk ≠ .panic ∧ Numeric.keySchedule true revision keyBits userOk ≠ .oof) ∧
+    (∀ aes keySize keyLen, min keySize 16 ≤ keyLen →
+      Numeric.objectKeySlices aes keySize keyLen ≠ .panic ∧ Numeric.objectKeySlices aes keySize keyLen ≠ .oof) ∧
+    (∀ n, Numeric.cfKeyBits true n ≠ .panic ∧ Numeric.cfKeyBits true n ≠ .oof) ∧
+    (∀ (d : Crypt.CryptDict) (id pass : Crypt.Bytes) (level keyBits : Nat) (m : Crypt.Method),
+      Crypt.fromPasswordRc4 P d id pass level keyBits m ≠ .panic ∧ Crypt.fromPasswordRc4 P d id pass level keyBits m ≠ .oof) :=
+  ⟨fun d hm hk id gen data => Crypt.decrypt_total hp hw d hm hk id gen data,
+   fun revision keyBits userOk => C14.key_schedule_total revision keyBits userOk,
+   fun aes keySize keyLen h => C14.object_key_total aes keySize keyLen h,
+   fun n => C14.cf_key_bits_total n,
+   fun d id pass level keyBits m => C14.from_password_rc4_total hp hw d id pass level keyBits m⟩
+
+/-- **`content::parse_ops` WITH the typed conversion of the operators** (`Model/ContentBytes.parseBytes` over
+    `Model/Content.add`, C08: all 73 operators, their operand conversions and the graphics-state bookkeeping): the
+    operations or `Err` for EVERY byte string, strict and `allow_invalid_ops`, within `len + 1` rounds — `content_total`
+    with the oracle "the operands convert" replaced by the conversion itself. `ImgOk`: the inline-image reader below
+    stays inside the data, which is `inline_image_total`. -/
+theorem content_typed_total {R : Type} (ro : Content.RealOps R) (env : Env R) (henv : EnvOk env)
+    (o : ContentBytes.Oracle) (ho : ContentBytes.ImgOk o) (allow : Bool) (data : List UInt8)
+    (hs : RealSize data.toArray) : (ContentBytes.parseBytes ro env o allow data).Returns :=
+  ContentBytes.parseBytes_total ro env henv o ho allow data hs
+
+/-- **Functions** (`Model/Numeric`, C14): the PostScript calculator body parser and the interpreter's stack
+    arithmetic answer on every token list / every operator list and input. Sampled (type 0) and stitching functions
+    beyond the clamp repaired in 28a4efa are walker-only. -/
+theorem function_eval_total :
+    (∀ s, Numeric.psBody true s ≠ .panic ∧ Numeric.psBody true s ≠ .oof) ∧
+    (∀ {V : Type} (A : Numeric.Arith V) (ops : List (Numeric.PsOp V)) (input : List V) (outLen : Nat),
+      Numeric.exec A true ops input outLen ≠ .panic ∧ Numeric.exec A true ops input outLen ≠ .oof) :=
+  ⟨fun s => C14.ps_body_total s, fun A ops input outLen => C14.ps_exec_total A ops input outLen⟩
 
 -- ===================================================================================================
 -- 8. resources
